@@ -56,6 +56,17 @@ func (b *Buffer[T]) Length() int {
 	return int(math.Ceil(float64(len(b.data)) / float64(b.channels)))
 }
 
+// channelLength returns a number of samples the Buffer holds for provided
+// channel. It is one less than Length for the channels missing in a
+// partially filled last frame.
+func (b *Buffer[T]) channelLength(channel int) int {
+	length := b.Length()
+	if filled := len(b.data) % b.Channels(); filled != 0 && channel >= filled {
+		length--
+	}
+	return length
+}
+
 // Cap returns capacity of whole Buffer.
 func (b *Buffer[T]) Cap() int {
 	return cap(b.data)
